@@ -29,7 +29,7 @@ REQUIRED = {"select.deselected_not_called": {"quick": 3000, "thorough": 150000},
             "local.unselected_run_emits_nothing": {"quick": 3000, "thorough": 150000},
             "nontrivial_cases": {"quick": 300, "thorough": 15000}}
 REQUIRED_SEEN = {"outline_tag_placeholder": ["<t>", "<row.index>", "<examples.index>", "<row.id>"], "dialect": ["v1", "v2", "none"],
-                 "tag_name_class": ["contains_operator_word", "contains_hash"], "outline_name_schema": ["{name}", "{examples.name}"]}
+                 "tag_name_class": ["contains_operator_word", "contains_hash", "non_ascii_letters"], "outline_name_schema": ["{name}", "{examples.name}"]}
 NSHARDS = {"quick": 16, "thorough": 16}
 
 
@@ -219,7 +219,16 @@ def run(spec, mon):
             case["cfg"]["tags"] = ast
             case["args"] = args + [a for a in case["args"] if not a.startswith("--tags")]
             mon.seen("tag_name_class", "contains_hash")
-        if i % 3 == 0 and i % 9 != 7:
+        if i % 9 == 2:
+            # tag names and tag-placeholder values made of non-ASCII letters and digits (customer.Müller, office.東京)
+            alt = ["M\u00fcller", "\u6771\u4eac", "a", "S\u00e3o", "\u0664\u0662"]
+            gen2 = dict(gen, tags=alt, tag_values=alt, p_param_tag=0.8)
+            case = RB.gen_case(rng, gen=gen2, p_stop=0.1, p_dry=0.15, p_noskipped=0.5)
+            ast, args = RB.random_expr(rng, tags=alt + ["p.M\u00fcller", "p.\u6771\u4eac"])
+            case["cfg"]["tags"] = ast
+            case["args"] = args + [a for a in case["args"] if not a.startswith("--tags")]
+            mon.seen("tag_name_class", "non_ascii_letters")
+        if i % 3 == 0 and i % 9 not in (7, 2):
             # expressions that refer to tags rendered from the special placeholders <row.index> <examples.index> <row.id>
             ast, args = RB.random_expr(rng, tags=["a", "b", "c", "r1", "r2", "q1.1", "q1.2", "q2.1"])
             if ast is not None:
